@@ -313,6 +313,8 @@ class Worker(metaclass=SupportClassPropertiesMeta):
             > nor that they won't. This might change in the future, so that the behaviour is consistent at least in the case of ``user_state``,
             > if proven beneficial.
         '''
+        if not self.is_child:
+            self._get_result() # some worker types fetch the final state together with the result, make sure this has happened if the worker is already dead
         return self._user_state
 
     @user_state.setter
